@@ -134,6 +134,14 @@ func c03h(c *Ctx, r *Report) {
 		}
 		r.Check(bad == "", clause, "R4 EXACT-GUARD", f.Name+"/guard-is-the-definition", c.pos(target.Pos()),
 			fmt.Sprintf("%s — the append is guarded by exactly these %d conditions", sp.descr, len(atoms)), bad)
+		// … and for every candidate: the scans around the append run to their end
+		var exits []string
+		for _, st := range earlyExits(f.Decl.Body, target) {
+			exits = append(exits, fmt.Sprintf("`%s` at %s", oneLine(printNode(c.Fset, st)), c.pos(st.Pos())))
+		}
+		r.Check(len(exits) == 0, clause, "R2 COVERAGE", f.Name+"/every-candidate-is-examined", c.pos(target.Pos()),
+			"no break, return or goto leaves a loop around the append: every candidate that satisfies the definition contributes its pair",
+			"a scan that collects the relation is left early ("+strings.Join(exits, "; ")+"): the candidates behind that point contribute nothing, so pairs of the relation — and with them lookaheads — are lost for the grammars where more than one candidate matches")
 	}
 }
 
